@@ -1,1 +1,360 @@
-Theorem placeholder : True. Proof. exact I. Qed.
+(** C04 — HDDM-A and HDDM-W report drift (warning) at step t exactly when the mean (resp.
+    EWMA) of the values since the running cut point exceeds the one up to it by at least the
+    Hoeffding (resp. McDiarmid) bound at confidence alpha_d (alpha_w); two-sided: the mirrored
+    test detects decreases.
+    Vocabulary (Proofs/HDDMR.v, Proofs/HDDMStep.v):
+      [arun c vs] / [wrun c vs]      the detector state after the update-only stream [vs];
+      [awin c ops]                   the values fed since the last restart (construction,
+                                     reset, or drift step) of the A-test after history [ops];
+      [ax c s v], [ay c s v], [az s v]  the cut samples x, y and the total sample z of the
+                                     A-test after feeding [v] in state [s] (before the verdict);
+      [cut_of m]                     number of values of the Mean [m] (position of the cut);
+      [wtrack c ops]                 W-test state + values since the last restart + positions
+                                     of the last moves of the increase / decrease cut points;
+      [EW lam l], [IBC lam n]        EWMA of [l] (weights lam (1-lam)^age, start 0) and the
+                                     independent bound condition after n updates.
+    Theorems over [A : Arith] hold for every number system (binary64 included); those over
+    [RealA] are about the real-number semantics. *)
+From Coq Require Import ZArith List Bool Reals Lra.
+From FV Require Import NumSys RealA Py Sums Stats Detector HDDM StatsR Structural HDDMR HDDMStep.
+Import ListNotations.
+Local Open Scope R_scope.
+
+(** * HDDM-A: what the three samples are *)
+
+(** Every history of updates and resets, every number system: z is the Mean fed exactly the
+    values W since the last restart; x (and y when two-sided) is empty only when W is, and
+    otherwise the Mean fed a non-empty prefix of W: the values up to the running cut point. *)
+Theorem C04_hddma_state_meaning : forall (A : Arith) (c : hddma_cfg A) (ops : list (op (num A))),
+  let s := exec (HDDMAD A) c ops in let W := awin c ops in
+  hz s = mean_run W /\
+  ((W = [] /\ hx s = mean_init) \/
+   exists k, (1 <= k <= length W)%nat /\ hx s = mean_run (firstn k W)) /\
+  (if ha_two c then
+     (W = [] /\ hy s = mean_init) \/
+     exists k, (1 <= k <= length W)%nat /\ hy s = mean_run (firstn k W)
+   else hy s = mean_init).
+Proof. intros A c ops. exact (proj2 (hddma_state_meaning c ops)). Qed.
+Print Assumptions C04_hddma_state_meaning.
+
+(** ... where the window W is emptied by a reset or a drift step and otherwise grows by the
+    value fed. *)
+Theorem C04_awin_spec : forall (A : Arith) (c : hddma_cfg A) (ops : list (op (num A))) (o : op (num A)),
+  awin c [] = [] /\
+  awin c (ops ++ [o]) =
+    match o with
+    | Rst => []
+    | Upd v => if hdrift (exec (HDDMAD A) c (ops ++ [Upd v])) then [] else awin c ops ++ [v]
+    end.
+Proof. intros A c ops o. split; [reflexivity | exact (awin_snoc c ops o)]. Qed.
+
+(** Over the reals the Means are batch means: z.n = |W|, z.mean = sum W / |W|; x.n = k,
+    x.mean = mean of the first k values of W. *)
+Theorem C04_hddma_state_meaning_R : forall (c : hddma_cfg RealA) (ops : list (op R)),
+  let s := exec (HDDMAD RealA) c ops in let W := awin c ops in
+  m_n (hz s) = Z.of_nat (length W) /\ (W <> [] -> m_mean (hz s) = Rsum W / INR (length W)) /\
+  is_prefix_mean W (hx s) /\
+  (if ha_two c then is_prefix_mean W (hy s) else hy s = mean_init).
+Proof. exact hddma_state_meaning_R. Qed.
+Print Assumptions C04_hddma_state_meaning_R.
+
+(** * HDDM-A: the verdict of every step *)
+
+(** Every number system: drift at the step iff t >= min_num_instances and the case analysis
+    on the freshly updated samples says drift; warning iff it says warning and not drift. *)
+Theorem C04_hddma_verdict : forall (A : Arith) (c : hddma_cfg A) (vs : list (num A)) (v : num A),
+  let s := arun c vs in
+  (hdrift (arun c (vs ++ [v])) = true <->
+   (ha_min c <= Z.of_nat (length (vs ++ [v])))%Z /\ a_drift c (ax c s v) (ay c s v) (az s v) = true) /\
+  (hwarning (arun c (vs ++ [v])) = true <->
+   (ha_min c <= Z.of_nat (length (vs ++ [v])))%Z /\ a_drift c (ax c s v) (ay c s v) (az s v) = false /\
+   a_warn c (ax c s v) (ay c s v) (az s v) = true).
+Proof. intros A. exact hddma_verdict. Qed.
+Print Assumptions C04_hddma_verdict.
+
+(** the case analysis: the increase side fires iff the cut sample is not the whole sample
+    and z.mean - x.mean >= threshold(alpha_d); two-sided: or the mirrored check on y. *)
+Theorem C04_a_drift_spec : forall (A : Arith) (c : hddma_cfg A) (x y z : mean_st A),
+  a_drift c x y z = true <->
+  (m_n x <> m_n z /\ check_incr x z (ha_alpha_d c) = true) \/
+  (ha_two c = true /\ m_n y <> m_n z /\ check_decr y z (ha_alpha_d c) = true).
+Proof. intros A. exact a_drift_spec. Qed.
+Theorem C04_a_warn_spec : forall (A : Arith) (c : hddma_cfg A) (x y z : mean_st A),
+  a_warn c x y z = true <->
+  (m_n x <> m_n z /\ check_incr x z (ha_alpha_d c) = false /\ check_incr x z (ha_alpha_w c) = true) \/
+  (ha_two c = true /\ m_n y <> m_n z /\ check_decr y z (ha_alpha_d c) = false /\
+   check_decr y z (ha_alpha_w c) = true).
+Proof. intros A. exact a_warn_spec. Qed.
+
+(** the code's threshold test is the two-sample Hoeffding bound of Frias-Blanco et al. on
+    the mean up to the cut (n1 values) and the mean ybar of the n2 values after it *)
+Theorem C04_hddma_rule : forall (x z : mean_st RealA) (alpha : R),
+  (0 < m_n x)%Z -> (m_n x < m_n z)%Z -> 0 < alpha <= 1 ->
+  let n1 := IZR (m_n x) in let n := IZR (m_n z) in let n2 := (n - n1)%R in
+  let ybar := ((n * m_mean z - n1 * m_mean x) / n2)%R in
+  (check_incr x z alpha = true <->
+   (sqrt ((1 / n1 + 1 / n2) / 2 * ln (1 / alpha)) <= ybar - m_mean x)%R).
+Proof. exact hddma_rule. Qed.
+Print Assumptions C04_hddma_rule.
+Theorem C04_hddma_rule_decr : forall (y z : mean_st RealA) (alpha : R),
+  (0 < m_n y)%Z -> (m_n y < m_n z)%Z -> 0 < alpha <= 1 ->
+  let n1 := IZR (m_n y) in let n := IZR (m_n z) in let n2 := (n - n1)%R in
+  let rest := ((n * m_mean z - n1 * m_mean y) / n2)%R in
+  (check_decr y z alpha = true <->
+   (sqrt ((1 / n1 + 1 / n2) / 2 * ln (1 / alpha)) <= m_mean y - rest)%R).
+Proof. exact hddma_rule_decr. Qed.
+
+(** One-sided HDDM-A over the reals, 0 < alpha <= 1.  W: the values since the last drift,
+    the new one included; k: the running cut point (x is the Mean of the first k values).
+    Drift at step t iff t >= min_num_instances, values remain after the cut, and
+      mean(values after the cut) - mean(values up to the cut)
+        >= sqrt((1/k + 1/(|W|-k))/2 * ln(1/alpha_d));
+    warning iff not so, but so with alpha_w. *)
+Theorem C04_hddma_drift_hoeffding : forall (c : hddma_cfg RealA) (vs : list R) (v : R),
+  ha_two c = false -> 0 < ha_alpha_d c <= 1 -> 0 < ha_alpha_w c <= 1 ->
+  let s := arun c vs in let s' := arun c (vs ++ [v]) in
+  let W := awin_run c vs ++ [v] in
+  let k := cut_of (ax c s v) in
+  let t := Z.of_nat (length (vs ++ [v])) in
+  (1 <= k <= length W)%nat /\ ax c s v = mean_run (A:=RealA) (firstn k W) /\
+  (hdrift s' = true <->
+   (ha_min c <= t)%Z /\ (k < length W)%nat /\
+   R_sqrt.sqrt ((1 / INR k + 1 / INR (length W - k)) / 2 * Rpower.ln (1 / ha_alpha_d c))
+     <= Rmean (skipn k W) - Rmean (firstn k W)) /\
+  (hwarning s' = true <->
+   (ha_min c <= t)%Z /\ ~ incr_sep (ha_alpha_d c) W k /\ incr_sep (ha_alpha_w c) W k).
+Proof. exact hddma_drift_hoeffding. Qed.
+Print Assumptions C04_hddma_drift_hoeffding.
+
+(** One- or two-sided, after any history with resets: additionally the decrease side,
+    mean(up to the cut ky) - mean(after it) >= the bound for that cut. *)
+Theorem C04_hddma_drift_hoeffding_ops : forall (c : hddma_cfg RealA) (ops : list (op R)) (v : R),
+  0 < ha_alpha_d c <= 1 -> 0 < ha_alpha_w c <= 1 ->
+  let s := exec (HDDMAD RealA) c ops in
+  let s' := exec (HDDMAD RealA) c (ops ++ [Upd v]) in
+  let W := awin c ops ++ [v] in
+  let kx := cut_of (ax c s v) in let ky := cut_of (ay c s v) in
+  let t := (updates_since_reset (HDDMAD RealA) ops + 1)%Z in
+  ((1 <= kx <= length W)%nat /\ ax c s v = mean_run (A:=RealA) (firstn kx W)) /\
+  (ha_two c = true -> (1 <= ky <= length W)%nat /\ ay c s v = mean_run (A:=RealA) (firstn ky W)) /\
+  (hdrift s' = true <->
+   (ha_min c <= t)%Z /\
+   (incr_sep (ha_alpha_d c) W kx \/ (ha_two c = true /\ decr_sep (ha_alpha_d c) W ky))) /\
+  (hwarning s' = true <->
+   (ha_min c <= t)%Z /\
+   ~ (incr_sep (ha_alpha_d c) W kx \/ (ha_two c = true /\ decr_sep (ha_alpha_d c) W ky)) /\
+   (incr_sep (ha_alpha_w c) W kx \/ (ha_two c = true /\ decr_sep (ha_alpha_w c) W ky))).
+Proof. exact hddma_drift_hoeffding_ops. Qed.
+Print Assumptions C04_hddma_drift_hoeffding_ops.
+
+(** [incr_sep] / [decr_sep] are exactly the displayed inequalities *)
+Theorem C04_sep_unfold : forall (alpha : R) (W : list R) (k : nat),
+  (incr_sep alpha W k <->
+   (k < length W)%nat /\
+   R_sqrt.sqrt ((1 / INR k + 1 / INR (length W - k)) / 2 * Rpower.ln (1 / alpha))
+     <= Rmean (skipn k W) - Rmean (firstn k W)) /\
+  (decr_sep alpha W k <->
+   (k < length W)%nat /\
+   R_sqrt.sqrt ((1 / INR k + 1 / INR (length W - k)) / 2 * Rpower.ln (1 / alpha))
+     <= Rmean (firstn k W) - Rmean (skipn k W)).
+Proof. intros alpha W k. split; reflexivity. Qed.
+
+(** * HDDM-W *)
+
+(** Every history, every number system.  W: values since the last restart; the total sample
+    is the SampleInfo fed W; the increase samples are the SampleInfo fed the first ki values
+    (the total at the last move of the increase cut point) and the one fed the values after
+    them; likewise the decrease samples with kd when two-sided. *)
+Theorem C04_hddmw_state_meaning : forall (A : Arith) (c : hddmw_cfg A) (ops : list (op (num A))),
+  let tr := wtrack c ops in let s := exec (HDDMWD A) c ops in
+  let W := wt_W tr in let lam := hw_lambda c in
+  wt_s tr = s /\
+  wtotal s = sirun lam W /\
+  ((wt_ki tr <= length W)%nat /\ (W <> [] -> (1 <= wt_ki tr)%nat) /\
+   winc1 s = sirun lam (firstn (wt_ki tr) W) /\ winc2 s = sirun lam (skipn (wt_ki tr) W)) /\
+  (if hw_two c then
+     (wt_kd tr <= length W)%nat /\ (W <> [] -> (1 <= wt_kd tr)%nat) /\
+     wdec1 s = sirun lam (firstn (wt_kd tr) W) /\ wdec2 s = sirun lam (skipn (wt_kd tr) W)
+   else wdec1 s = si_init /\ wdec2 s = si_init /\ wt_kd tr = 0%nat).
+Proof.
+  intros A c ops. destruct (hddmw_state_meaning c ops) as (Es & Ht & _ & Hi & Hd).
+  cbv zeta. rewrite <- Es. exact (conj eq_refl (conj Ht (conj Hi Hd))).
+Qed.
+Print Assumptions C04_hddmw_state_meaning.
+
+(** the bookkeeping of [wtrack]: one [wtrack_step] per operation (reset and drift empty the
+    window; a cut point that moves is placed after the value just fed) *)
+Theorem C04_wtrack_spec : forall (A : Arith) (c : hddmw_cfg A) (ops : list (op (num A))) (o : op (num A)),
+  wtrack c [] = wtr_init c /\ wtrack c (ops ++ [o]) = wtrack_step c (wtrack c ops) o.
+Proof. intros A c ops o. split; [reflexivity | exact (wtrack_snoc c ops o)]. Qed.
+
+(** Verdict of every step, every number system: drift iff t >= min_num_instances and the
+    threshold check fires for alpha_d on the increase samples, or (two-sided) on the decrease
+    samples; warning iff no drift and the same with alpha_w. *)
+Theorem C04_hddmw_verdict : forall (A : Arith) (c : hddmw_cfg A) (vs : list (num A)) (v : num A),
+  let s := wrun c vs in
+  let i1 := wi1 c s v in let i2 := wi2 c s v in let d1 := wd1 c s v in let d2 := wd2 c s v in
+  let t := Z.of_nat (length (vs ++ [v])) in
+  (wdrift (wrun c (vs ++ [v])) = true <->
+   (hw_min c <= t)%Z /\
+   (mcd_check i1 i2 (hw_alpha_d c) = true \/ (hw_two c = true /\ mcd_check d2 d1 (hw_alpha_d c) = true))) /\
+  (wwarning (wrun c (vs ++ [v])) = true <->
+   (hw_min c <= t)%Z /\
+   ~ (mcd_check i1 i2 (hw_alpha_d c) = true \/ (hw_two c = true /\ mcd_check d2 d1 (hw_alpha_d c) = true)) /\
+   (mcd_check i1 i2 (hw_alpha_w c) = true \/ (hw_two c = true /\ mcd_check d2 d1 (hw_alpha_w c) = true))).
+Proof. exact hddmw_verdict. Qed.
+Print Assumptions C04_hddmw_verdict.
+
+(** the threshold check is McDiarmid's bound *)
+Theorem C04_mcd_check_R : forall (s1 s2 : sinfo RealA) (alpha : R),
+  mcd_check s1 s2 alpha = true <->
+  R_sqrt.sqrt ((si_ibc s1 + si_ibc s2) * Rpower.ln (1 / alpha) / 2) < si_mean s2 - si_mean s1.
+Proof. exact mcd_check_R. Qed.
+
+(** closed forms of the two recursions of a SampleInfo *)
+Theorem C04_hddmw_ewma_closed : forall (lam : R) (vs : list R),
+  si_mean (fold_left (si_update (A:=RealA) lam) vs si_init) = wsum (fun k => lam * (1 - lam) ^ k) vs.
+Proof. exact hddmw_ewma_closed. Qed.
+Theorem C04_hddmw_ibc_closed : forall (lam : R) (vs : list R),
+  si_ibc (fold_left (si_update (A:=RealA) lam) vs si_init) =
+  (lam * lam * sum_f_R0' (fun i => ((1 - lam) * (1 - lam)) ^ i) (length vs) + ((1 - lam) * (1 - lam)) ^ (length vs))%R.
+Proof. exact hddmw_ibc_closed. Qed.
+Print Assumptions C04_hddmw_ibc_closed.
+
+(** Over the reals, with W the values since the last drift (new one included) and ki, kd the
+    cut positions: drift iff t >= min and
+      EWMA(W after ki) - EWMA(W up to ki) > sqrt((IBC(ki) + IBC(|W|-ki)) ln(1/alpha_d) / 2)
+    or, two-sided, EWMA(W up to kd) - EWMA(W after kd) > the bound for kd. *)
+Theorem C04_hddmw_drift_mcdiarmid : forall (c : hddmw_cfg RealA) (vs : list R) (v : R),
+  let tr := wwin_run c vs in
+  let s := wrun c vs in let s' := wrun c (vs ++ [v]) in
+  let W := wt_W tr ++ [v] in
+  let ki := if inc_moves c s v then length W else wt_ki tr in
+  let kd := if dec_moves c s v then length W else wt_kd tr in
+  let lam := hw_lambda c in
+  let t := Z.of_nat (length (vs ++ [v])) in
+  let drift_cond := mcd_sep lam (hw_alpha_d c) (firstn ki W) (skipn ki W) \/
+                    (hw_two c = true /\ mcd_sep lam (hw_alpha_d c) (skipn kd W) (firstn kd W)) in
+  let warn_cond := mcd_sep lam (hw_alpha_w c) (firstn ki W) (skipn ki W) \/
+                   (hw_two c = true /\ mcd_sep lam (hw_alpha_w c) (skipn kd W) (firstn kd W)) in
+  (1 <= ki <= length W)%nat /\ (hw_two c = true -> (1 <= kd <= length W)%nat) /\
+  (wdrift s' = true <-> (hw_min c <= t)%Z /\ drift_cond) /\
+  (wwarning s' = true <-> (hw_min c <= t)%Z /\ ~ drift_cond /\ warn_cond).
+Proof. exact hddmw_drift_mcdiarmid. Qed.
+Print Assumptions C04_hddmw_drift_mcdiarmid.
+
+Theorem C04_mcd_sep_unfold : forall (lam alpha : R) (L1 L2 : list R),
+  mcd_sep lam alpha L1 L2 <->
+  R_sqrt.sqrt ((IBC lam (length L1) + IBC lam (length L2)) * Rpower.ln (1 / alpha) / 2) < EW lam L2 - EW lam L1.
+Proof. intros. reflexivity. Qed.
+
+(** the runs are the Detector-level executions on update-only histories *)
+Theorem C04_runs_are_exec : forall (A : Arith),
+  (forall (c : hddma_cfg A) vs, arun c vs = exec (HDDMAD A) c (map Upd vs)) /\
+  (forall (c : hddmw_cfg A) vs, wrun c vs = exec (HDDMWD A) c (map Upd vs)).
+Proof. intros A. split; [exact arun_exec | exact wrun_exec]. Qed.
+
+(** * two_sided_test = True *)
+
+(** up to the first two-sided alarm, every one-sided alarm is a two-sided alarm
+    (every number system) *)
+Theorem C04_hddma_two_sided_extends : forall (A : Arith) (c : hddma_cfg A) (vs : list (num A)),
+  no_alarm_before_a c vs ->
+  hdrift (arun (one_sided_a c) vs) = true -> hdrift (arun (two_sided_a c) vs) = true.
+Proof. exact hddma_two_sided_extends. Qed.
+Print Assumptions C04_hddma_two_sided_extends.
+Theorem C04_hddmw_two_sided_extends : forall (A : Arith) (c : hddmw_cfg A) (vs : list (num A)),
+  no_alarm_before_w c vs ->
+  wdrift (wrun (one_sided_w c) vs) = true -> wdrift (wrun (two_sided_w c) vs) = true.
+Proof. exact hddmw_two_sided_extends. Qed.
+Print Assumptions C04_hddmw_two_sided_extends.
+
+(** HDDM-A's two-sided verdicts are unchanged when every value x is replaced by 1-x *)
+Theorem C04_hddma_mirror : forall (c : hddma_cfg RealA) (vs : list R), ha_two c = true ->
+  hdrift (arun c (map (fun x => 1 - x) vs)) = hdrift (arun c vs) /\
+  hwarning (arun c (map (fun x => 1 - x) vs)) = hwarning (arun c vs).
+Proof. exact hddma_mirror. Qed.
+Print Assumptions C04_hddma_mirror.
+
+(** a sustained drop 1^n 0^k gets, step for step, the verdicts of the rise 0^n 1^k ... *)
+Theorem C04_hddma_drop_as_rise : forall (c : hddma_cfg RealA) (n k : nat), ha_two c = true ->
+  hdrift (arun c (repeat 1 n ++ repeat 0 k)) = hdrift (arun c (repeat 0 n ++ repeat 1 k)) /\
+  hwarning (arun c (repeat 1 n ++ repeat 0 k)) = hwarning (arun c (repeat 0 n ++ repeat 1 k)).
+Proof. exact hddma_drop_as_rise. Qed.
+
+(** ... a sustained rise is detected (one- or two-sided) as soon as the Hoeffding bound for
+    n zeros against k ones is at most 1 ... *)
+Theorem C04_hddma_rise_detected : forall (c : hddma_cfg RealA) (n k : nat),
+  0 < ha_alpha_d c <= 1 -> (1 <= n)%nat -> (1 <= k)%nat ->
+  (1 / INR n + 1 / INR k) / 2 * ln (1 / ha_alpha_d c) <= 1 ->
+  (ha_min c <= Z.of_nat (n + k))%Z ->
+  exists j, (j <= n + k)%nat /\ hdrift (arun c (firstn j (repeat 0 n ++ repeat 1 k))) = true.
+Proof. exact hddma_rise_detected. Qed.
+Print Assumptions C04_hddma_rise_detected.
+
+(** ... and so is, by the two-sided test, the sustained drop, within the same bound. *)
+Theorem C04_hddma_drop_detected : forall (c : hddma_cfg RealA) (n k : nat), ha_two c = true ->
+  0 < ha_alpha_d c <= 1 -> (1 <= n)%nat -> (1 <= k)%nat ->
+  (1 / INR n + 1 / INR k) / 2 * ln (1 / ha_alpha_d c) <= 1 ->
+  (ha_min c <= Z.of_nat (n + k))%Z ->
+  exists j, (j <= n + k)%nat /\ hdrift (arun c (firstn j (repeat 1 n ++ repeat 0 k))) = true.
+Proof. exact hddma_drop_detected. Qed.
+Print Assumptions C04_hddma_drop_detected.
+
+(** HDDM-W: the two-sided test is symmetric under x -> -x (NOT under x -> 1-x, see the
+    counterexample below: the EWMA starts at 0) *)
+Theorem C04_hddmw_mirror_neg_partial : forall (c : hddmw_cfg RealA) (vs : list R), hw_two c = true ->
+  wdrift (wrun c (map Ropp vs)) = wdrift (wrun c vs) /\
+  wwarning (wrun c (map Ropp vs)) = wwarning (wrun c vs).
+Proof. exact hddmw_mirror_neg. Qed.
+Print Assumptions C04_hddmw_mirror_neg_partial.
+Theorem C04_hddmw_drop_as_rise_partial : forall (c : hddmw_cfg RealA) (n k : nat), hw_two c = true ->
+  wdrift (wrun c (repeat 0 n ++ repeat (-1) k)) = wdrift (wrun c (repeat 0 n ++ repeat 1 k)) /\
+  wwarning (wrun c (repeat 0 n ++ repeat (-1) k)) = wwarning (wrun c (repeat 0 n ++ repeat 1 k)).
+Proof. exact hddmw_drop_as_rise_partial. Qed.
+(* FULL (not proved): a delay bound for HDDM-W on 0^n 1^k / 1^n 0^k (analogue of
+   C04_hddma_rise_detected / C04_hddma_drop_detected); the x -> 1-x mirror statement for
+   HDDM-W is false, see C04_hddmw_no_1mx_mirror. *)
+
+(** * Non-vacuity *)
+
+(** the hypotheses of the drop theorem are satisfiable: alpha_d = 1, stream 1,0 *)
+Example C04_drop_detected_instance :
+  let c := {| ha_alpha_d := 1; ha_alpha_w := 1; ha_two := true; ha_min := 2 |} : hddma_cfg RealA in
+  exists j, (j <= 2)%nat /\ hdrift (arun c (firstn j [1; 0])) = true.
+Proof.
+  intros c. apply (C04_hddma_drop_detected c 1 1); cbn [ha_two ha_alpha_d ha_min c]; try reflexivity;
+    try lra; try apply Nat.le_refl.
+  - change (@ln RealA) with Rpower.ln. change (INR 1) with 1. replace (1 / 1) with 1 by lra. rewrite ln_1. lra.
+  - cbn. discriminate.
+Qed.
+
+From Coq Require Import PrimFloat.
+From FV Require Import FloatA.
+
+(** binary64, default parameters (alpha_d = 0.001, alpha_w = 0.005, min_num_instances = 30),
+    stream 1^30 0^30: the two-sided A-test raises drift at step 34 (warning at step 33), by
+    its decrease side only; the one-sided test never does. *)
+Example C04_hddma_two_sided_drop_nonvacuous :
+  let c2 := {| ha_alpha_d := 0x1.0624dd2f1a9fcp-10%float; ha_alpha_w := 0x1.47ae147ae147bp-8%float;
+               ha_two := true; ha_min := 30 |} : hddma_cfg FloatA in
+  let drop := repeat 1%float 30 ++ repeat 0%float 30 in
+  let s := arun c2 (firstn 33 drop) in
+  hdrift (arun c2 (firstn 34 drop)) = true /\ hwarning s = true /\ hdrift s = false /\
+  fst (side_d c2 (ay c2 s 0%float) (az s 0%float)) = true /\
+  fst (side_i c2 (ax c2 s 0%float) (az s 0%float)) = false /\
+  forallb (fun j => negb (hdrift (arun (one_sided_a c2) (firstn j drop)))) (seq 0 61) = true.
+Proof. vm_compute. repeat split; reflexivity. Qed.
+
+(** binary64, HDDM-W defaults (lambda = 0.05), two-sided: the drop 1^30 0^30 is reported at
+    step 55, its mirror image under x -> 1-x (the rise 0^30 1^30) only at step 57: the
+    W-test is not symmetric under x -> 1-x. *)
+Example C04_hddmw_no_1mx_mirror :
+  let c2 := {| hw_alpha_d := 0x1.0624dd2f1a9fcp-10%float; hw_alpha_w := 0x1.47ae147ae147bp-8%float;
+               hw_two := true; hw_lambda := 0x1.999999999999ap-5%float; hw_min := 30 |} : hddmw_cfg FloatA in
+  let drop := repeat 1%float 30 ++ repeat 0%float 30 in
+  let rise := map (fun x => (1 - x)%float) drop in
+  wdrift (wrun c2 (firstn 55 drop)) = true /\ wdrift (wrun c2 (firstn 55 rise)) = false /\
+  wdrift (wrun c2 (firstn 57 rise)) = true /\
+  forallb (fun j => negb (wdrift (wrun c2 (firstn j rise)))) (seq 0 57) = true.
+Proof. vm_compute. repeat split; reflexivity. Qed.
